@@ -31,6 +31,9 @@ pub enum Pattern {
     Disabled,
     /// transport stalled while the tx timer expires, then released
     StalledTx,
+    /// the server's bytes keep coming (every h/4) but a single frame takes more
+    /// than 2h to complete: any inbound traffic counts as liveness
+    Trickle,
 }
 
 fn hb_frame() -> Vec<u8> {
@@ -112,6 +115,23 @@ pub fn run_pattern(hsecs: u16, p: Pattern, res: &mut CaseResult) {
             alive_until = Instant::now();
             drop(ch);
         }
+        Pattern::Trickle => {
+            // one large frame (a blocked notice with a long reason), a few bytes at a time
+            let frame = wire::enc_method(
+                0,
+                amq_protocol::protocol::AMQPClass::Connection(amq_protocol::protocol::connection::AMQPMethod::Blocked(amq_protocol::protocol::connection::Blocked { reason: "x".repeat(200) })),
+            );
+            let steps = 13; // 13 x h/4 = 3.25 h > 2 h
+            let per = (frame.len() + steps - 1) / steps;
+            for c in frame.chunks(per) {
+                std::thread::sleep(hd / 4);
+                h.inject_chunks(vec![c.to_vec()]);
+            }
+            // and then whole heartbeats again so the tail of the observation is lively
+            std::thread::sleep(hd / 4);
+            h.inject(hb_frame());
+            alive_until = Instant::now();
+        }
         Pattern::Disabled => {
             std::thread::sleep(Duration::from_millis(3000));
             alive_until = Instant::now();
@@ -164,11 +184,11 @@ pub fn run_pattern(hsecs: u16, p: Pattern, res: &mut CaseResult) {
                 res.violate("silence_fatal_when_disabled", "connection ended during 3 s of silence with h=0".to_string());
             }
         }
-        Pattern::Idle | Pattern::ServerEvery(_) | Pattern::Silence => {
+        Pattern::Idle | Pattern::ServerEvery(_) | Pattern::Silence | Pattern::Trickle => {
             // every gap between consecutive client writes (and from the last write to the end
             // of the observation) must be <= h + tolerance
             let mut marks: Vec<Instant> = h.peek(|st| st.writes.iter().map(|w| w.at).collect());
-            let end = h.peek(|st| st.released_at).unwrap_or_else(Instant::now).min(if p == Pattern::Idle { alive_until } else { Instant::now() });
+            let end = h.peek(|st| st.released_at).unwrap_or_else(Instant::now).min(if p == Pattern::Idle || p == Pattern::Trickle { alive_until } else { Instant::now() });
             marks.retain(|m| *m <= end);
             marks.push(end);
             let mut worst = Duration::from_millis(0);
@@ -238,7 +258,7 @@ pub fn run(rc: &mut RunCtx) {
     let hs: &[u16] = if rc.quick() { &[1] } else { &[1, 2, 3] };
     let mut cases: Vec<(u16, Pattern)> = Vec::new();
     for &hh in hs {
-        for p in [Pattern::Idle, Pattern::Silence, Pattern::ServerEvery(9), Pattern::ServerEvery(18), Pattern::ServerEvery(5), Pattern::Busy, Pattern::StalledTx] {
+        for p in [Pattern::Idle, Pattern::Silence, Pattern::ServerEvery(9), Pattern::ServerEvery(18), Pattern::ServerEvery(5), Pattern::Busy, Pattern::StalledTx, Pattern::Trickle] {
             cases.push((hh, p));
         }
     }
